@@ -21,7 +21,8 @@ from common import Check, P, Zr, L, T, O, B, run_shards, WORK
 PID = "C17"
 HEADER = "From TV Require Import Base Model.Wiring Model.Config."
 REASONS = {141: "entry-built-as-another-class-or-rejection-differs", 142: "scheduler-wiring-is-not-the-declared-inputs",
-           143: "selected-components-differ", 144: "field-values-differ", 145: "dump-load-round-trip-differs"}
+           143: "selected-components-differ", 144: "field-values-differ", 145: "dump-load-round-trip-differs",
+           146: "edited-file-loaded-again-gives-the-old-configuration"}
 MODROOT = WORK / "c17_mods"
 
 
@@ -264,6 +265,22 @@ def loading_case(rng, tier):
         except Exception as ex:
             res["roundtrip_bad"] = True
             res["roundtrip_error"] = repr(ex)[:200]
+        # the file is edited in place (entries in reverse order, one renamed, one more Sink) and loaded again from the
+        # same path: the configuration and the simulation built from it are those the file describes NOW
+        try:
+            edited = [dict(e) for e in reversed(entries)]
+            edited[0] = dict(edited[0], name=edited[0]["name"] + "_renamed")
+            edited.append(dict(type="tickit.devices.sink.Sink", name="late_sink", inputs={}))
+            path.write_text(yaml.safe_dump(edited, sort_keys=False))
+            again2 = read_configs(str(path))
+            names2 = [c.name for c in again2]
+            sim2 = build_simulation(str(path))
+            res["reload_bad"] = (names2 != [e["name"] for e in edited]
+                                 or sorted(sim2._components) != sorted(e["name"] for e in edited)
+                                 or type(again2[-1]).__name__ != "Sink")
+        except Exception as ex:
+            res["reload_bad"] = True
+            res["reload_error"] = repr(ex)[:200]
     return res
 
 
@@ -320,6 +337,8 @@ def main(tier, seed):
             py_bad.setdefault(i, []).append(144)
         if c.get("roundtrip_bad"):
             py_bad.setdefault(i, []).append(145)
+        if c.get("reload_bad"):
+            py_bad.setdefault(i, []).append(146)
         if c["kind"] == "registry":
             c2 = dict(c, results=[r for r in c["results"]])
             if any(r[0] == "C" and not r[2] for r in c["results"]):
@@ -338,7 +357,7 @@ def main(tier, seed):
                "module imports it) compared with the registry model; (b) generated class libraries (identical signatures, equal "
                "class names in two modules) + the shipped Sink/IoBox/SystemSimulation, random YAML files nested to depth 3 in random "
                "entry order loaded by read_configs and build_simulation with random selections: class per entry, fields, scheduler "
-               "wiring, selected components, dump/load round trip; non-trivial = at least 4 registry events"
+               "wiring, selected components, dump/load round trip, the same path edited and loaded again; non-trivial = at least 4 registry events"
                % (3 if tier == "quick" else 4))
     ck.coverage.update(registry_histories=sum(1 for c in cases if c["kind"] == "registry"),
                        yaml_files=sum(1 for c in cases if c["kind"] == "load"),
@@ -356,7 +375,7 @@ def main(tier, seed):
             ck.report(REASONS[code], f"configuration loading: {REASONS[code]}",
                       dict(kind=c["kind"], plan=c.get("plan"), entries=c.get("entries"), events=c["events"], results=c["results"],
                            requested=c.get("requested"), selected=c.get("selected"), sched_conns=c.get("sched_conns"),
-                           load_error=c.get("load_error"), roundtrip_error=c.get("roundtrip_error"), codes=bad[i]))
+                           load_error=c.get("load_error"), roundtrip_error=c.get("roundtrip_error"), reload_error=c.get("reload_error"), codes=bad[i]))
     shutil.rmtree(MODROOT, ignore_errors=True)
     return ck.finish()
 
